@@ -845,23 +845,28 @@ void dec_av1_loop_filter_frame_mt(EbDecHandle *dec_handle, EbPictureBufferDesc *
             /* row-1 : To ensure line buf copy with TopR sync if LF skips row  */
             /* This prevent issues across Tiles where recon sync is not ensured*/
             /* row+1 : This is for CDEF actually, should be moved to CDEF stage*/
-            int32_t start_lf[3] = {0};
-            int32_t row_index[3];
+            /* row-2 : the LR context lines saved below for stripe (row-1) are the last lines of   */
+            /* row-2; with tile rows (or LF off) nothing else orders its recon before this point */
+            int32_t start_lf[4] = {0};
+            int32_t row_index[4];
             row_index[0] = (sb_row)*tiles_info->tile_cols;
             row_index[1] = (sb_row - (sb_row == 0 ? 0 : 1)) * tiles_info->tile_cols;
             row_index[2] = (sb_row + (sb_row == (dec_mt_frame_data->sb_rows - 1) ? 0 : 1)) *
                 tiles_info->tile_cols;
+            row_index[3] = (sb_row - (sb_row < 2 ? sb_row : 2)) * tiles_info->tile_cols;
 #if MT_WAIT_PROFILE
             dec_timer_start(&timer);
 #endif
-            while ((!start_lf[0]) || (!start_lf[1]) || (!start_lf[2])) {
+            while ((!start_lf[0]) || (!start_lf[1]) || (!start_lf[2]) || (!start_lf[3])) {
                 start_lf[0] = 1;
                 start_lf[1] = 1;
                 start_lf[2] = 1;
+                start_lf[3] = 1;
                 for (int i = 0; i < tiles_info->tile_cols; i++) {
                     start_lf[0] &= dec_mt_frame_data->sb_recon_row_map[row_index[0] + i];
                     start_lf[1] &= dec_mt_frame_data->sb_recon_row_map[row_index[1] + i];
                     start_lf[2] &= dec_mt_frame_data->sb_recon_row_map[row_index[2] + i];
+                    start_lf[3] &= dec_mt_frame_data->sb_recon_row_map[row_index[3] + i];
                 }
             }
 #if MT_WAIT_PROFILE
